@@ -229,7 +229,7 @@ def run_task(t):
                 sc.int_eq('%s coefficient count' % obj, 'M%s.ncoef' % obj, nc_)
                 sc.int_eq('%s breakpoint count' % obj, 'M%s.nbp' % obj, N_ + 1)
                 for key in ['bp.%d' % i for i in range(N_ + 1)] + ['start', 'end', 'dur']:
-                    sc.uf_eq('%s %s == fresh object from the data it must reflect' % (obj, key), 'M%s.%s' % (obj, key), 'M%s.%s' % (f, key))
+                    sc.uf_eq('%s %s == fresh object from the data it must reflect' % (obj, key), 'M%s.%s' % (obj, key), 'M%s.%s' % (f, key), real_fallback=True)
                 for k in sorted({0, 1, 2, nc_ - 1, nc_}):
                     for i in range(N_):
                         for d in range(dim):
@@ -330,8 +330,8 @@ def run_spline(t):
                             sc.uf_eq('after update: piece %d order %d [%d] == fresh spline' % (i, k, dd), 'n_%d_%d.%d' % (i, k, dd), 'f_%d_%d.%d' % (i, k, dd))
                             sc.uf_eq('a reference to getTrajectory() obtained before the update reflects the update: piece %d order %d [%d]' % (i, k, dd), 'held_%d_%d.%d' % (i, k, dd), 'f_%d_%d.%d' % (i, k, dd))
                 for key in ['bp.%d' % i for i in range(N1 + 1)] + ['start', 'end', 'dur']:
-                    sc.uf_eq('after update: trajectory %s == fresh spline' % key, 'MN.' + key, 'MF.' + key)
-                    sc.uf_eq('held trajectory reference after update: %s == fresh spline' % key, 'MH.' + key, 'MF.' + key)
+                    sc.uf_eq('after update: trajectory %s == fresh spline' % key, 'MN.' + key, 'MF.' + key, real_fallback=True)
+                    sc.uf_eq('held trajectory reference after update: %s == fresh spline' % key, 'MH.' + key, 'MF.' + key, real_fallback=True)
                 sc.int_eq('after update: trajectory breakpoint count', 'MN.nbp', N1 + 1)
                 for k in (0, 1, 2):
                     for i in range(N1):
